@@ -273,6 +273,7 @@ fn main() {
             let g = |k: &str| -> Vec<f64> { v[k].as_array().unwrap().iter().map(|x| x.as_f64().unwrap()).collect() };
             let gi = |k: &str| -> Vec<i64> { v[k].as_array().unwrap().iter().map(|x| x.as_i64().unwrap()).collect() };
             let e = if v.get("vi").map(|x| x.is_array()).unwrap_or(false) { rec_conebarrier::lattice_event(0, &c, &gi("p"), v["q"].as_i64().unwrap(), &gi("vi")) }
+                    else if v.get("side").map(|x| x.is_string()).unwrap_or(false) { rec_conebarrier::exact_boundary_event(0, &c, &g("v"), v["side"].as_str().unwrap()) }
                     else if v.get("v").map(|x| x.is_array()).unwrap_or(false) { rec_conebarrier::membership_event(0, &c, &g("v")) } else { rec_conebarrier::event(0, &c, &g("s"), &g("z"), &g("ds"), &g("dz"), v.get("family").and_then(|x| x.as_str()).unwrap_or("calculus")) };
             write_lines(&args.get("out", "conebarrier.ndjson"), &[e]);
         }
